@@ -916,6 +916,10 @@ class Facade:
         def w(*args, **kwargs):
             if not symbolic_mode():
                 return real(*args, **kwargs)
+            if not builtins.any(_contains_symarray(a) or has_sym(a) for a in args) and \
+                    not builtins.any(_contains_symarray(v) or has_sym(v) for v in kwargs.values()):
+                # purely numeric call (ints, floats, float arrays): real numpy, float arrays handed back as object arrays
+                return wrap_num(real(*args, **kwargs))
             args = tuple(lift_arg(a) for a in args)
             kwargs = {k: lift_arg(v) for k, v in kwargs.items()}
             scalar_in = len(args) > 0 and isinstance(args[0], SymArray) and args[0].ndim == 0
